@@ -177,7 +177,8 @@ def tag_text(n, md_style=0):
                     return txt
         return '!metadata' + md_suffix()
     base = {'xref': '!xref', 'required': '!required', 'null': '!null', 'clear': '!clear', 'extend': '!extend',
-            'eval': '!eval'}.get(k)
+            'eval': '!eval', 'append': '!append', 'prev': '!prev', 'fstr': '!fstr', 'import': '!import',
+            'include': '!include'}.get(k)      # every one of these has a `:metadata` constructor (since repair D17i)
     if base:
         return base + md_suffix()
     if k in ('call', 'bind'):
